@@ -58,4 +58,38 @@ PROPS = {
         "explanation": "accessor theorems over the model; Eq/Ord/Hash are definitional in the model and observed on the implementation",
         "assumptions": ["Hash/Ord of str are the standard library's", "&s[a..b] panics exactly off char boundaries or out of range (modelled by strSlice)"],
     },
+    "C05": {
+        "lean": ["Properties.C05"],
+        "level_text": "Machine-checked Lean 4 refinement theorem, generic in the codec family (v3 and v5 instantiate it): for EVERY stream, EVERY schedule (any chunk sizes, Pending before any read, future dropped and re-created at any Pending) and either terminal event, the poll state machine's result and byte consumption equal Poll.spec, a function of the stream alone (hence equal to one uninterrupted read, for well-formed, malformed and truncated streams); Pending only when the transport said so; every offered buffer has capacity >= 1 and ends within the current frame; on success consumed = reported total and the body handed back is the stream's body bytes; the machine itself never panics (fuel suffices, no zero-capacity read, debug_assert unreachable). The model of GenericPollPacket::poll is tied to the code by correspondence over generated and exhaustive (all compositions of <=9/11-byte packets of every type, with Pending/drop) schedules, which really drop and re-create the future, logging every requested capacity.",
+        "streams": ["v3poll", "v5poll"],
+        "rule": "poll ops: every generated valid packet of every type plus mutated encodings under random schedules with EOF and error terminals; all 2^(n-1) chunk compositions of a short packet of every type, each also with Pending / Pending+drop inserted; distinct = distinct op lines",
+        "explanation": "drop/re-create is the identity on the caller-held state in the model (the future owns only borrows); the harness really drops the future after every Pending",
+        "assumptions": ["the transport honours the AsyncRead contract (fills at most the offered capacity)"],
+    },
+    "C01": {
+        "lean": ["Properties.C01V3"],
+        "level_text": "Machine-checked Lean 4 theorems for ALL valid v3.1/v3.1.1 packets (all 14 types, unbounded field sizes and list lengths, every code from the regenerated code tables) and arbitrary trailing bytes: encode succeeds without error or panic in either build profile and the async, blocking and poll (exact total, raw body) front-ends return the original packet; wire numbers of enums invert (the obligation F1 broke). The v5 part (generic property layer + 15 packet types) is modelled, tied by correspondence and by the model-level round-trip check of the `valid` stream; its theorems are being proved (v5 currently: tied + tested, not yet theorem).",
+        "streams": ["v3enc", "v3dec", "v5enc", "v5dec", "valid"],
+        "rule": "enc/dec/deca/poll/hdr ops on type-directed generated packets of both families (every optional field and property subset shape, every code, boundary lengths) and their mutations; `valid` ops check the model's Valid predicate and model round trip on every generated packet; distinct = distinct op lines",
+        "explanation": "v3: theorem; v5: correspondence + oracle until C01V5 lands",
+    },
+    "C02": {
+        "lean": ["Properties.C02V3"],
+        "level_text": "Machine-checked Lean 4 theorems for ALL v3 packets (valid or not): every encodable part writes exactly what it reports; encode never panics and is independent of debug assertions; on success the output is control byte ++ minimal remaining length ++ body with remaining length = bytes following = encode_len - header; oversize is refused with InvalidVarByteInt by both encode and encode_len, and that is the only encode error. Width thresholds come from tables regenerated from the running code (C15). v5: modelled (incl. the expect() panic sites of the property-length macros), tied by correspondence in release AND debug builds and by the oracle (incl. oversize property sections, F6); theorems in progress.",
+        "streams": ["v3enc", "v5enc"],
+        "debug_streams": ["v3enc", "v5enc"],
+        "oracle_debug": True,
+        "rule": "enc ops print bytes, encode_len, body bytes/len and every separately encodable part (protocol, will, property sets) for generated packets incl. just-outside-domain values; same ops through the debug-assertions build; oracle adds width-boundary sizes and 275 MB declared property sections",
+        "explanation": "v3: theorem; v5: correspondence + oracle until C02V5 lands",
+    },
+    "C03": {
+        "lean": ["Properties.C03", "Properties.C03V3"],
+        "level_text": "Machine-checked Lean 4 theorems for ALL byte strings (v3): no decoder entry point (async, blocking, header, poll under any schedule) reaches any of the Rust panic sites rendered in the model (expect/unreachable!/debug_assert/unchecked arithmetic/indexing), termination holds by construction (total functions; loops are well-founded recursions; poll fuel proved sufficient), the poll machine never offers a zero-capacity buffer and calls block_decode only on a completely filled buffer. PARTIAL by nature: memory-level safety of the two `unsafe` idioms cannot be exhibited by a model; their logical preconditions are proved and the real code is exercised under catch_unwind in release and debug builds on exhaustive <=2-byte strings, every 2-byte header with short bodies, and structure-aware corruptions. v5: modelled and tied; theorems in progress.",
+        "streams": ["v3short", "v5short", "v3dec", "v5dec"],
+        "debug_streams": ["v3short", "v5short"],
+        "oracle_debug": True,
+        "rule": "all strings of length <= 2 through dec/poll(/hdr), every first byte x 8-10 short bodies x 3 declared lengths, generated packets with 3-4 structure-aware mutations each; distinct = distinct op lines",
+        "explanation": "no-panic theorems over the model; unsafe blocks observed, not proved",
+        "assumptions": ["allocation of a declared (<= 256 MB) body buffer succeeds", "memory-level soundness of from_utf8_unchecked-after-validation and of the MaybeUninit body buffer is outside the model (logical preconditions proved)"],
+    },
 }
